@@ -1,4 +1,6 @@
-use super::{Node, RustDocument, RustFieldType, TryFromNode, WriterError, complex::ComplexProps};
+use super::{
+    Node, RustDocument, RustFieldType, TryFromNode, WriterError, complex::ComplexProps, xml_name_to_rust_name,
+};
 use crate::model::{
     field::{OtherRustType, as_rust_type},
     node::collect_namespaces_on_node,
@@ -22,7 +24,7 @@ impl ElementProps {
         match &self.element_type {
             ElementType::RustType(rust_type) => Some(rust_type.clone()),
             ElementType::ComplexType(complex_props) => Some(RustFieldType::Other(OtherRustType {
-                name: complex_props.xml_name.clone(),
+                name: xml_name_to_rust_name(&complex_props.xml_name),
                 module: complex_props
                     .target_namespace
                     .as_ref()
